@@ -27,6 +27,14 @@ COMPONENTS = {
         "allocator success/failure decision + ledger (blocks still come from the ASan heap)",
     ],
     "not_built": ["TLS/DTLS (NNG_ENABLE_TLS=OFF in the pinned configuration)", "Windows platform", "nngcat, perf"],
+    "always_on_monitors": [
+        "AddressSanitizer + UndefinedBehaviorSanitizer over library and harness",
+        "allocator ledger: sized free, unknown pointer, leak after nng_fini with call sites (sim/alloc.cc)",
+        "aio monitor: exactly-once completion, early time-outs, callbacks after stop/free (sim/aiomon.c)",
+        "lockset monitor for identifier tables (sim/lockset.c)",
+        "scheduler: deadlock detection with wait sites, mutex destroyed while owned/waited, condvar destroyed while waited (sim/sched.cc)",
+        "Bounded watchdog guards on close-like calls (harness/util.cc)",
+    ],
 }
 
 
